@@ -52,7 +52,7 @@ def run_one(job):
     else:
         env["PYTHONHASHSEED"] = v["hashseed"]
     here = os.path.dirname(os.path.dirname(os.path.dirname(os.path.abspath(__file__))))
-    env["PYTHONPATH"] = here + ":/repo/src"
+    env["PYTHONPATH"] = here + ":" + os.environ.get("VF_REPO_SRC", "/repo/src")
     try:
         r = subprocess.run([sys.executable, "-m", "vf.c18_runner", name, json.dumps(v)], capture_output=True, text=True, env=env, cwd=here, timeout=900)
     except subprocess.TimeoutExpired:
